@@ -131,7 +131,42 @@ func (r *runner) closeSQL() {
 
 type root map[string]int
 
-type roots struct{ head, staged, working root }
+type roots struct {
+	head, staged, working root
+	tid                   map[string]map[string]int // root kind -> table name -> identity (first column tag)
+}
+
+// readTids: identity of every table of a root = its first column tag (kept by RENAME TABLE, which
+// is what dolt's delta matching looks at), mapped to a small number.
+func (st *sqlState) readTids(ctx context.Context, rv doltdb.RootValue) map[string]int {
+	out := map[string]int{}
+	names, err := rv.GetTableNames(ctx, doltdb.DefaultSchemaName, true)
+	if err != nil {
+		panic(err)
+	}
+	for _, n := range names {
+		tbl, ok, err := rv.GetTable(ctx, doltdb.TableName{Name: n})
+		if err != nil || !ok {
+			panic(fmt.Sprint("GetTable ", n, " ", ok, " ", err))
+		}
+		sch, err := tbl.GetSchema(ctx)
+		if err != nil {
+			panic(err)
+		}
+		tags := sch.GetAllCols().Tags
+		key := "notags:" + n
+		if len(tags) > 0 {
+			key = fmt.Sprint("tag:", tags[0])
+		}
+		id, seen := st.ids[key]
+		if !seen {
+			id = len(st.ids) + 1
+			st.ids[key] = id
+		}
+		out[n] = id
+	}
+	return out
+}
 
 func (st *sqlState) readRoot(ctx context.Context, rv doltdb.RootValue) root {
 	out := root{}
@@ -163,7 +198,8 @@ func (st *sqlState) readRoots(db string) roots {
 	if !ok {
 		panic("GetRoots: no roots for " + db)
 	}
-	return roots{st.readRoot(ctx, rs.Head), st.readRoot(ctx, rs.Staged), st.readRoot(ctx, rs.Working)}
+	return roots{head: st.readRoot(ctx, rs.Head), staged: st.readRoot(ctx, rs.Staged), working: st.readRoot(ctx, rs.Working),
+		tid: map[string]map[string]int{"head": st.readTids(ctx, rs.Head), "staged": st.readTids(ctx, rs.Staged), "working": st.readTids(ctx, rs.Working)}}
 }
 
 func (st *sqlState) readPats() []pat {
@@ -195,6 +231,35 @@ func xroot(r root) string {
 		o[i] = fmt.Sprintf("%s=%d", n, r[string(b)])
 	}
 	return strings.Join(o, ",")
+}
+
+// xrootT: a root with identities for the rename-aware model commands
+func xrootT(r root, tid map[string]int) string {
+	if len(r) == 0 {
+		return "-"
+	}
+	var ns []string
+	for n := range r {
+		ns = append(ns, xs(n))
+	}
+	sort.Strings(ns)
+	o := make([]string, len(ns))
+	for i, n := range ns {
+		b, _ := hex.DecodeString(n[1:])
+		o[i] = fmt.Sprintf("%s=%d:%d", n, tid[string(b)], r[string(b)])
+	}
+	return strings.Join(o, ",")
+}
+
+func uniqueTids(tid map[string]int) bool {
+	seen := map[int]bool{}
+	for _, t := range tid {
+		if seen[t] {
+			return false
+		}
+		seen[t] = true
+	}
+	return true
 }
 
 func rootEq(a, b root) bool { return xroot(a) == xroot(b) }
@@ -326,6 +391,34 @@ func (r *runner) runSQL(k kase) {
 			ask = fmt.Sprintf("clean 1 %s - %s %s %s", xpats(ps), xs(op.T), xroot(before.staged), xroot(before.working))
 		default:
 			continue
+		}
+		useR := false
+		if renamed && ask != "" {
+			// rename-aware model commands (identities = column tags); only when identities are unique in
+			// each root, which the model assumes
+			if uniqueTids(before.tid["staged"]) && uniqueTids(before.tid["working"]) && uniqueTids(before.tid["head"]) {
+				useR = true
+				stT, wT, hT := xrootT(before.staged, before.tid["staged"]), xrootT(before.working, before.tid["working"]), xrootT(before.head, before.tid["head"])
+				switch op.Op {
+				case "addall":
+					ask = fmt.Sprintf("stageallr 0 %s %s %s", xpats(ps), stT, wT)
+				case "addforce":
+					ask = fmt.Sprintf("stageallr 1 %s %s %s", xpats(ps), stT, wT)
+				case "add":
+					ask = fmt.Sprintf("addr 0 %s %s %s %s", xpats(ps), xs(op.T), stT, wT)
+				case "commitA":
+					ask = fmt.Sprintf("commitallr %s %s %s %s", xpats(ps), hT, stT, wT)
+				case "clean":
+					ask = fmt.Sprintf("cleanr 1 %s - - %s %s", xpats(ps), stT, wT)
+				case "cleanx":
+					ask = fmt.Sprintf("cleanr 0 %s - - %s %s", xpats(ps), stT, wT)
+				case "cleant":
+					ask = fmt.Sprintf("cleanr 1 %s - %s %s %s", xpats(ps), xs(op.T), stT, wT)
+				}
+				e.Rep.Hit("sql:rename-aware-compare")
+			} else {
+				e.Rep.Hit("sql:rename-identity-collision-skip")
+			}
 		}
 		res := s.Exec(stmt)
 		after := st.readRoots(db)
@@ -481,26 +574,32 @@ func (r *runner) runSQL(k kase) {
 		}
 
 		// ---------------- correspondence with the model
-		if ask == "" || renamed {
+		if ask == "" || (renamed && !useR) {
 			continue
+		}
+		xr := func(r root, kind string) string {
+			if useR {
+				return xrootT(r, after.tid[kind])
+			}
+			return xroot(r)
 		}
 		var impl string
 		switch op.Op {
 		case "addall", "addforce", "add":
 			if res.Err == nil {
-				impl = "ok " + xroot(after.staged)
+				impl = "ok " + xr(after.staged, "staged")
 			} else {
 				impl = cls
 			}
 		case "commitA":
 			if res.Err == nil {
-				impl = "ok " + xroot(after.head)
+				impl = "ok " + xr(after.head, "head")
 			} else {
 				impl = cls
 			}
 		case "clean", "cleanx", "cleant":
 			if res.Err == nil {
-				impl = "ok " + xroot(after.working)
+				impl = "ok " + xr(after.working, "working")
 			} else {
 				impl = cls
 			}
